@@ -7,7 +7,7 @@ from . import common as K
 LEVEL = 'other'
 EXPLANATION = ('Proved (structure): codegen_inv selects the Hitzer closed forms for d < 6 and the Shirokov scheme beyond, and returns '
                'x*num over denom; codegen_div assembles num * d with the dependency d = 1/denom and raises ZeroDivisionError when the symbolic '
-               'denominator is identically zero; a/b, number/x, x**-n delegate to div / inv with operands in order (MultiVector.__pow__ tree).  '
+               'denominator is identically zero; a/b, number/x delegate to div / inv with operands in order (powers belong to C19 / C11).  '
                'The algebraic identity x * num(x) == denom (a polynomial identity of degree up to 8 in up to 32 variables per dimension) is NOT '
                'discharged deductively: bounded stand-in with exact Fractions, two-sided, all signatures d<=4 (5..7 sampled), sparse/permuted/'
                'zero-padded patterns; ZeroDivisionError-only-for-singular against an exact determinant oracle d<=4; power_supply/AdditionChains '
@@ -22,7 +22,6 @@ def build(H, tier, seed):
     U.vc_inv_div_structure(H)
     M.vc_mv_delegations(H, methods_binary=['div', '__truediv__'], methods_unary=['inv'])
     # __rtruediv__: operand order matters only for non-numbers on the left (C16); number/x is in the stand-in
-    T.vc_tape_pow(H)
 
 
 def standins(tier, seed):
